@@ -28,7 +28,8 @@ fn ctx_depth_test_contract() {
         ..Context::default()
     };
     let (new, curr): (F, F) = (kani::any(), kani::any());
-    let _ = ctx.depth_test(new, curr);
+    let r = ctx.depth_test(new, curr);
+    assert!(r == spec_depth_pass(ctx.depth_test, new, curr)); // explicit, for native replay
 }
 
 include!("gen/dispatch_ctx.rs");
